@@ -21,7 +21,7 @@ RULE = (
     "valid: seeded greedy covering array, pairwise (quick) / 3-wise (thorough), coverage of all t-tuples verified and reported, over kernel(2) x "
     "resampler(2) x clustering(2) x normalize(2) x cluster_every{1,2,3} x n_max_clusters{None,1,2,4} x split_threshold{0.3,1,3} x metric{ESS,vv0.3,vv2} x "
     "n_steps/n_max_steps{None,(1,2),(3,10)} x evaluation{vector,scalar,blobs} x boundaries{none,periodic,reflective,both} x pool{None,pool-like,1,2} x "
-    "save_every{None,1,3} x d{1,2,3}, N=32, ESS target >= 32. invalid: Hypothesis draws a valid base and one offending value for one documented "
+    "save_every{None,1,3} x d{1,2,3} x ess_ratio{2,1,3.5}, N=32 (ESS target >= 32). invalid: Hypothesis draws a valid base and one offending value for one documented "
     "constraint. Non-trivial: valid row with >=3 non-default factors; invalid case = any (each violates exactly one constraint)."
 )
 ASSUMPTIONS = [
@@ -105,9 +105,9 @@ class ValidRows(RowCheck):
         "cluster_every": [1, 2, 3], "n_max_clusters": [None, 1, 2, 4], "split_threshold": [1.0, 0.3, 3.0],
         "metric": ["ess", "vv0.3", "vv2"], "steps": [None, "1,2", "3,10"], "mode": ["scalar", "vector", "blobs"],
         "boundary": ["none", "periodic", "reflective", "both"], "pool": [None, "permuting", 1, 2], "save_every": [None, 1, 3],
-        "d": [1, 2, 3],
+        "d": [1, 2, 3], "ess_ratio": [2.0, 1.0, 3.5],
     }
-    DEFAULTS = {"clustering": True, "normalize": True, "cluster_every": 1, "n_max_clusters": None, "split_threshold": 1.0, "metric": "ess",
+    DEFAULTS = {"ess_ratio": 2.0, "clustering": True, "normalize": True, "cluster_every": 1, "n_max_clusters": None, "split_threshold": 1.0, "metric": "ess",
                 "steps": None, "mode": "scalar", "boundary": "none", "pool": None, "save_every": None, "kernel": "tpcn", "resample": "mult", "d": 1}
     REPEATS = {"quick": 2, "thorough": 1}
 
@@ -122,7 +122,7 @@ class ValidRows(RowCheck):
         t = Target.from_spec(simple_target_spec(np.random.default_rng(seed), d, row["mode"]))
         cfg = dict(sample=row["kernel"], resample=row["resample"], clustering=row["clustering"], normalize=row["normalize"],
                    cluster_every=row["cluster_every"], n_max_clusters=row["n_max_clusters"], split_threshold=row["split_threshold"],
-                   n_particles=N, pool=row["pool"])
+                   n_particles=N, pool=row["pool"], ess_ratio=row.get("ess_ratio", 2.0))
         if row["metric"] != "ess":
             cfg["volume_variation"] = float(row["metric"][2:])
         if row["steps"]:
